@@ -1,5 +1,7 @@
 import Refine.Model.Dist
 import Refine.Lemmas.Dist
+import Refine.Lemmas.DistSync
+import Refine.Lemmas.DistGhost
 
 /-!
   C06 — distributed-mesh invariants at sync points.
@@ -11,13 +13,13 @@ import Refine.Lemmas.Dist
   shift of one rank; `IdWorld` / `IdInv` the abstract pre-state of `ref_node_synchronize_globals` and the id
   invariant; `IdWorld.newId w r g = elim (all shifted unused) (shiftId old (off r) g)`.
 
-  Not proved here (kept visible, see `sync_bijection_partial`): the unrolling of the world-level loop
-  `syncGlobals` (collectives of `Model/Comm`, slice loop) into `IdWorld.newId`.  The per-rank functions the loop
-  calls are proved (`eliminate_offset_spec`, `elim_slices`), the concrete examples below evaluate the literal
-  world-level model, and the correspondence streams compare it with the C on every run.
+  `sync_bijection` is the headline: the loop-by-loop world-level model `syncGlobals` equals the closed form on
+  every world satisfying `SyncInv` (proof of the unrolling: `Refine/Lemmas/DistSync.lean`, using C17's
+  `allgather_spec` / `allgatherv_spec` for the collectives), and the closed form is a monotone bijection onto
+  `[0,N)` (`newId_bijection`).
 -/
 namespace Refine.Props.C06
-open Refine.Model.Dist Refine.Model.NodeIds Refine.Lemmas.Dist
+open Refine.Model.Dist Refine.Model.NodeIds Refine.Lemmas.Dist Refine.Lemmas.DistSync
 
 /-! ## global-id synchronisation -/
 
@@ -42,34 +44,13 @@ example : elimOffset (elimOffset [1, 4, 6, 9] [0, 2]) (elimOffset [5, 7] [0, 2])
 /-- `ref_node_eliminate_active_parts` returns a non-empty slice inside the rank range (the slice loop terminates
     and never skips a rank) -/
 theorem active_parts_progress (counts : List Int) (chunk : Int) (a0 : Nat) (h : a0 < counts.length) :
-    a0 < (activeParts counts chunk a0).1 ∧ (activeParts counts chunk a0).1 ≤ counts.length := by
-  unfold activeParts
-  have key : ∀ fuel a1 na, a0 < a1 → a1 ≤ counts.length →
-      a0 < (activeGo counts chunk fuel a1 na).1 ∧ (activeGo counts chunk fuel a1 na).1 ≤ counts.length := by
-    intro fuel
-    induction fuel with
-    | zero => intro a1 na h1 h2; exact ⟨h1, h2⟩
-    | succ f ih =>
-      intro a1 na h1 h2
-      unfold activeGo
-      split
-      · rename_i hc; exact ih (a1 + 1) _ (by omega) (by omega)
-      · exact ⟨h1, h2⟩
-  exact key _ _ _ (by omega) (by omega)
+    a0 < (activeParts counts chunk a0).1 ∧ (activeParts counts chunk a0).1 ≤ counts.length :=
+  activeParts_progress counts chunk a0 h
 
-/-
-  FULL STATEMENT (design name `sync_bijection`): for every world `w : World NodeIds` whose abstraction
-  `abs w : IdWorld` satisfies `IdInv`, `syncGlobals w` gives on rank `r` the table `slot ↦ (abs w).newId r g`,
-  `n_global = (abs w).N` and an empty unused list on every rank, and `newId` has the properties below.
-  PROVED: the properties of `newId` (this theorem) and the per-rank loops (`eliminate_offset_spec`, `elim_slices`,
-  `active_parts_progress`).  MISSING: the equation `syncGlobals w = (newId-table)` for the literal world-level
-  loop (unrolling `allgather`/`allgatherv` and the slice recursion); it is evaluated on concrete worlds in the
-  examples below and compared with the C by the streams `dist_fn` / `dist_run`.
--/
 /-- Under the id invariant the map old id ↦ new id is strictly monotone on every rank, gives the same new id to a
     shared (old) id on every rank, orders fresh ids after shared ones and by rank, lands in `[0, N)` and is onto
     `[0, N)` where `N = old_n_global + Σ fresh − #unused` is the `n_global` every rank ends with. -/
-theorem sync_bijection_partial (w : IdWorld) (h : IdInv w) :
+theorem newId_bijection (w : IdWorld) (h : IdInv w) :
     (∀ r g g', g ∈ w.liveOf r → g' ∈ w.liveOf r → g < g' → w.newId r g < w.newId r g') ∧
     (∀ r q g, g < w.old → w.newId r g = w.newId q g) ∧
     (∀ r q g g', g ∈ w.liveOf r → g' ∈ w.liveOf q → g < w.old → w.old ≤ g' → w.newId r g < w.newId q g') ∧
@@ -115,7 +96,7 @@ def exIdWorld : IdWorld :=
 
 example : exIdWorld.shiftedUnused = [1, 4, 7] ∧ exIdWorld.N = 6 := by decide +kernel
 
-example : IdInv exIdWorld := by
+theorem exIdInv : IdInv exIdWorld := by
   have hU : exIdWorld.shiftedUnused = [1, 4, 7] := by decide +kernel
   have hM : exIdWorld.M = 9 := by decide +kernel
   have hl : ∀ r, exIdWorld.liveOf r = [[0, 2, 6], [2, 3, 5], [0, 5, 6]].getD r [] := fun _ => rfl
@@ -165,6 +146,60 @@ example : (syncGlobals exWorld).map liveTable
          [(0, exIdWorld.newId 2 0), (1, exIdWorld.newId 2 5), (2, exIdWorld.newId 2 6)]]
     ∧ (syncGlobals exWorld).map (fun s => (s.oldN, s.newN, s.nUnused)) = [(6, 6, 0), (6, 6, 0), (6, 6, 0)]
     ∧ exIdWorld.N = 6 := by decide +kernel
+
+/-- **sync_bijection** (C06 headline, full strength).  For every world of per-rank id states `w` satisfying
+    `SyncInv old w` — every rank has `old_n_global = old ≤ new_n_global`, `sorted_global` is non-decreasing, and the
+    abstraction `absWorld old w` (fresh-id counts, live ids, unused ids) satisfies the id invariant `IdInv` — the
+    loop-by-loop model of `ref_node_synchronize_globals` (allgather of fresh counts, shift, sort, allgather of
+    unused counts, slice loop with allgatherv and the two-pointer walks, write-back) ends on every rank `r` in the
+    closed-form state `finalRank`: `sorted_global[i] = newId r (old sorted_global[i])`, no unused ids,
+    `old_n_global = new_n_global = N`; and `newId` is strictly monotone on every rank, identical on every rank for
+    a shared id, orders fresh ids after shared ones and by rank (so it is injective on vertices), lands in `[0,N)`
+    and is onto `[0,N)`. -/
+theorem sync_bijection (old : Int) (w : List NodeIds) (h : SyncInv old w) :
+    syncGlobals w = w.mapIdx (fun r s => finalRank (absWorld old w) r s) ∧
+    (∀ r g g', g ∈ (absWorld old w).liveOf r → g' ∈ (absWorld old w).liveOf r → g < g' →
+        (absWorld old w).newId r g < (absWorld old w).newId r g') ∧
+    (∀ r q g, g < old → (absWorld old w).newId r g = (absWorld old w).newId q g) ∧
+    (∀ r q g g', g ∈ (absWorld old w).liveOf r → g' ∈ (absWorld old w).liveOf q → g < old → old ≤ g' →
+        (absWorld old w).newId r g < (absWorld old w).newId q g') ∧
+    (∀ r q g g', r < q → g ∈ (absWorld old w).liveOf r → g' ∈ (absWorld old w).liveOf q → old ≤ g → old ≤ g' →
+        (absWorld old w).newId r g < (absWorld old w).newId q g') ∧
+    (∀ r g, g ∈ (absWorld old w).liveOf r →
+        0 ≤ (absWorld old w).newId r g ∧ (absWorld old w).newId r g < (absWorld old w).N) ∧
+    (∀ k, 0 ≤ k → k < (absWorld old w).N →
+        ∃ r g, g ∈ (absWorld old w).liveOf r ∧ (absWorld old w).newId r g = k) :=
+  ⟨syncGlobals_eq old w h, newId_bijection (absWorld old w) h.inv⟩
+
+/-- what the caller reads after the call: on rank `r` every live slot `l` (paired with its old id `g` in the
+    sorted arrays, the slots of the sorted arrays being distinct and inside `global[]`) holds `newId r g`; the
+    unused list is empty and both counters equal `N` -/
+theorem sync_table (old : Int) (w : List NodeIds) (h : SyncInv old w) (r : Nat) (hr : r < w.length)
+    (hnd : ((w[r]).sorted.map (·.2)).Nodup) (g : Int) (l : Nat) (hm : (g, l) ∈ (w[r]).sorted)
+    (hl : l < (w[r]).global.length) :
+    ((syncGlobals w)[r]'(by rw [syncGlobals_eq old w h]; simpa using hr)).global.getD l (-1)
+        = (absWorld old w).newId r g ∧
+    ((syncGlobals w)[r]'(by rw [syncGlobals_eq old w h]; simpa using hr)).unusedStk = [] ∧
+    ((syncGlobals w)[r]'(by rw [syncGlobals_eq old w h]; simpa using hr)).oldN = (absWorld old w).N ∧
+    ((syncGlobals w)[r]'(by rw [syncGlobals_eq old w h]; simpa using hr)).newN = (absWorld old w).N := by
+  have heq := syncGlobals_eq old w h
+  have hget : (syncGlobals w)[r]'(by rw [heq]; simpa using hr) = finalRank (absWorld old w) r (w[r]) := by
+    simp only [heq, List.getElem_mapIdx]
+  rw [hget]
+  refine ⟨?_, rfl, rfl, rfl⟩
+  unfold finalRank
+  simp only []
+  apply writeBack_getD
+  · rw [List.map_map]; exact hnd
+  · exact List.mem_map.mpr ⟨(g, l), hm, rfl⟩
+  · simpa using hl
+
+/-- non-vacuity: the 3-rank world `exWorld` above satisfies the hypotheses of `sync_bijection` -/
+example : SyncInv 6 exWorld := by
+  refine ⟨by decide, by decide, by decide, ?_⟩
+  have : absWorld 6 exWorld = exIdWorld := rfl
+  rw [this]
+  exact exIdInv
 
 /-! ## cell owner -/
 
@@ -232,9 +267,32 @@ theorem cellOwner_agree (s t : RankState) (c : DCell) (h : ∀ g ∈ c.nodes, s.
 
 example : cellOwner [(7, 0), (3, 2), (9, 1), (5, 1)] = 2 ∧ cellPartNode [7, 3, 9, 5] = 1 := by decide
 
-/-! ## ghost refresh (no universal theorem: `ghostRefresh_spec` of DESIGN.md is tied by the streams only)
+/-! ## ghost refresh
 
-    the literal model of `ref_node_ghost_int` (alltoall of the bucket sizes, alltoallv of the requested globals,
+  FULL STATEMENT (`ghostRefresh_spec`, NOT proved): for every world `w` of at least two ranks in which every rank
+  lists each global once, every ghost entry's `part` is a rank that holds that global with `ldim` values, and the
+  bucket sizes fit an `int`: `ghost ty ldim w = some w'` with
+  `w'[r] = w[r].map fun nd => if nd.part = r then nd else { nd with vals := the vals of nd.glob on rank nd.part }`.
+  PROVED: the store loop at the end of `ref_node_ghost_*` (`ghostRefresh_spec_partial`): the literal
+  `foldl storeVals` over the received `(global, values)` pairs gives every named entry exactly the received values
+  and leaves every other entry — all owned ones — unchanged.
+  MISSING: that the `alltoall` of bucket sizes and the two `alltoallv` calls hand rank `r` exactly the pairs
+  `(g, values of g on its owner)` of its ghosts (to be derived from `C17.alltoallv_spec`); that part is tied by the
+  `dist_fn` ghost ops (diff + python oracle) and by clause (iv) of `distInv` on every dumped state after
+  `ref_node_ghost_real`. -/
+theorem ghostRefresh_spec_partial {β : Type} (ps : List (Int × List β)) (nodes : List (GNode β))
+    (hnd : (nodes.map (·.glob)).Nodup) (hps : (ps.map (·.1)).Nodup) :
+    ps.foldl (fun ns gi => storeVals ns gi.1 gi.2) nodes
+      = nodes.map fun nd => match ps.find? (fun gv => gv.1 == nd.glob) with
+          | some gv => { nd with vals := gv.2 }
+          | none => nd :=
+  Refine.Lemmas.DistGhost.foldl_storeVals ps nodes hnd hps
+
+example : [(4, [40, 41]), (7, [70, 71])].foldl (fun ns gi => storeVals ns gi.1 gi.2)
+      [(⟨1, 0, [10, 11]⟩ : GNode Int), ⟨4, 1, [0, 0]⟩, ⟨7, 2, [0, 0]⟩]
+    = [⟨1, 0, [10, 11]⟩, ⟨4, 1, [40, 41]⟩, ⟨7, 2, [70, 71]⟩] := by decide +kernel
+
+/-- the literal model of `ref_node_ghost_int` (alltoall of the bucket sizes, alltoallv of the requested globals,
     reply alltoallv, store) on a concrete 3-rank world: afterwards every ghost entry equals the owner's entry and the
     owned entries are unchanged -/
 example : ghost Refine.Model.Comm.RefType.int 2
@@ -242,5 +300,61 @@ example : ghost Refine.Model.Comm.RefType.int 2
      [⟨7, 2, [70, 71]⟩, ⟨4, 1, [9, 9]⟩]]
   = some [[⟨1, 0, [10, 11]⟩, ⟨4, 1, [40, 41]⟩, ⟨7, 2, [70, 71]⟩], [⟨4, 1, [40, 41]⟩, ⟨1, 0, [10, 11]⟩],
           [⟨7, 2, [70, 71]⟩, ⟨4, 1, [40, 41]⟩]] := by decide +kernel
+
+/-! ## counts -/
+
+theorem nodupB_nodup {α : Type} [DecidableEq α] : ∀ (l : List α), nodupB l = true → l.Nodup := by
+  intro l
+  induction l with
+  | nil => intro _; exact List.nodup_nil
+  | cons x xs ih =>
+    intro h
+    simp only [nodupB, Bool.and_eq_true, Bool.not_eq_true', List.contains_eq_mem, decide_eq_false_iff_not] at h
+    exact List.nodup_cons.mpr ⟨h.1, ih h.2⟩
+
+/-- **counts_sum**: in every world satisfying `distInv` the owned vertices of the ranks, summed, are pairwise
+    distinct global ids, the cells attributed to each rank by `cellOwner`, summed, are pairwise distinct and as
+    many as there are distinct cells; and once the ids are synchronised the summed owned-vertex count equals
+    `n_global` on every rank and the owned ids are exactly `0 … n_global-1`. -/
+theorem counts_sum (w : List RankState) (h : distInv w = true) :
+    (w.zipIdx.map fun sr => (sr.1.ownedNodes sr.2).length).sum = (ownedGlobals w).length ∧
+    (ownedGlobals w).Nodup ∧
+    (w.zipIdx.map fun sr => (sr.1.ownedCells sr.2).length).sum = (allCells w).length ∧
+    (ownedCellsAll w).Nodup ∧
+    (synced w = true →
+      (∀ s ∈ w, s.newN = ((w.zipIdx.map fun sr => (sr.1.ownedNodes sr.2).length).sum : Nat)) ∧
+      sortGlob (ownedGlobals w) = (List.range (ownedGlobals w).length).map fun (i : Nat) => (i : Int)) := by
+  have hc : clauseCounts w = true := by
+    unfold distInv at h
+    simp only [Bool.and_eq_true] at h
+    exact h.2
+  unfold clauseCounts at hc
+  simp only [Bool.and_eq_true, Bool.or_eq_true, Bool.not_eq_true', beq_iff_eq, List.all_eq_true] at hc
+  obtain ⟨⟨⟨hn1, hn2⟩, hlen⟩, hsync⟩ := hc
+  have hsum1 : (w.zipIdx.map fun sr => (sr.1.ownedNodes sr.2).length).sum = (ownedGlobals w).length := by
+    simp only [ownedGlobals, List.length_flatten, List.map_map]
+    congr 1; apply List.map_congr_left; intro sr _; simp
+  have hsum2 : (w.zipIdx.map fun sr => (sr.1.ownedCells sr.2).length).sum = (ownedCellsAll w).length := by
+    simp only [ownedCellsAll, List.length_flatten, List.map_map]
+    congr 1
+  refine ⟨hsum1, nodupB_nodup _ hn1, by rw [hsum2, hlen], nodupB_nodup _ hn2, ?_⟩
+  intro hs
+  rcases hsync with hns | hsy
+  · rw [hs] at hns; exact absurd hns (by simp)
+  · refine ⟨?_, hsy.2⟩
+    intro s hsm
+    rw [hsum1]
+    exact hsy.1 s hsm
+
+/-- non-vacuity: a 2-rank world (two tets sharing a face, vertices 0,1 owned by rank 0 and 2,3,4 by rank 1, both tets
+    stored on both ranks; a boundary triangle touching only rank 1's vertices is stored there only) satisfies `distInv` and is synchronised -/
+def exDist : List RankState :=
+  [{ nodes := [⟨0, 0, [10]⟩, ⟨1, 0, [11]⟩, ⟨2, 1, [12]⟩, ⟨3, 1, [13]⟩, ⟨4, 1, [14]⟩],
+     cells := [⟨8, [0, 1, 2, 3], 0⟩, ⟨8, [1, 2, 4, 3], 0⟩], oldN := 5, newN := 5, nUnused := 0 },
+   { nodes := [⟨2, 1, [12]⟩, ⟨3, 1, [13]⟩, ⟨4, 1, [14]⟩, ⟨0, 0, [10]⟩, ⟨1, 0, [11]⟩],
+     cells := [⟨8, [0, 1, 2, 3], 0⟩, ⟨8, [1, 2, 4, 3], 0⟩, ⟨3, [2, 3, 4], 7⟩], oldN := 5, newN := 5, nUnused := 0 }]
+
+example : distInv exDist = true ∧ synced exDist = true ∧ (ownedGlobals exDist).length = 5 ∧
+    (allCells exDist).length = 3 := by decide +kernel
 
 end Refine.Props.C06
